@@ -15,14 +15,14 @@ CHECKS = {
         note="trusted: CPython float() as correctly rounded strtod reference, the Python reference parser/generator (self-tested against CPython json), gcc sanitizers"),
     "C03": dict(
         level="exploration", design="DESIGN.md §3 C03",
-        technique="runtime monitoring: differential oracle inside an ASan/UBSan driver — chunked feeding vs a fresh parser's single call on every prefix, all 2-splits/3-splits enumerated per input",
+        technique="runtime monitoring: differential oracle inside an ASan/UBSan driver — chunked feeding vs a fresh parser's single call on every prefix, all 2-splits/3-splits enumerated per input; thorough adds a coverage-guided libFuzzer target (clang) with the same checker compiled in",
         text="For ~10^4 (quick) / ~3*10^5 (thorough) hostile inputs x 8 flag sets the real tokener is fed every 2-chunk split (n<=256), every 3-chunk split (n<=32), the all-1-byte partition and "
              "random partitions; every call is compared (status, error code, value hash, global end) with a fresh parser on the concatenation; streams are resumed at reported ends. "
              "Evidence lists the lexical situations in which a chunk boundary was placed (all 43 required kinds or the run is inconclusive).",
         note="trusted: the library's own one-shot behaviour on a fresh parser is the reference (differential), gcc ASan/UBSan, the shim's allocation ledger"),
     "C04": dict(
         level="exploration", design="DESIGN.md §3 C04",
-        technique="runtime monitoring: ASan+UBSan (exact-size heap blocks, PROT_NONE guard page), allocation-ledger conservation, outcome-trichotomy assertion on every call, reset-vs-new differential; thorough adds valgrind memcheck",
+        technique="runtime monitoring: ASan+UBSan (exact-size heap blocks, PROT_NONE guard page), allocation-ledger conservation, outcome-trichotomy assertion on every call, reset-vs-new differential; thorough adds valgrind memcheck and a libFuzzer target (flags/depth/split point from the input) with the same monitors compiled in",
         text="~8*10^6 (quick) parse calls on arbitrary bytes / hostile documents / 10^6-deep nesting / 1 MiB tokens with random flag words, depth limits and chunkings under sanitizers; every call's outcome "
              "asserted to be one of the three legal ones with end<=len; ledger must return to zero after free; (interrupted A, reset, sensitive Y) pairs compared with a new parser; 100 interrupt+reset cycles must not grow. "
              "All 15 producible error codes must be observed or the run is inconclusive.",
@@ -69,7 +69,7 @@ CHECKS = {
         note="trusted: the value-equality model; ASan for use-after-free through shared nodes"),
     "C11": dict(
         level="exploration", design="DESIGN.md §3 C11",
-        technique="runtime monitoring: ASan driver + byte-string model after every set; shim-injected allocation failures; ledger conservation; equality/copy/serialization probes",
+        technique="runtime monitoring: ASan driver + byte-string model after every set; shim-injected allocation failures; ledger conservation; equality/copy/serialization probes; thorough adds a valgrind memcheck pass",
         text="~8k (quick) / 500k histories x 10-40 sets with lengths crossing the inline threshold both ways, injected malloc failures on every 5th set, refused lengths with a 2-byte source.",
         note="trusted: byte-string model, shim fault schedule (the check verifies whether the fault fired), reference parser for the serialization probe"),
     "C19": dict(
@@ -79,17 +79,17 @@ CHECKS = {
         note="trusted: byte-array model; growth policy not asserted"),
     "C05": dict(
         level="exploration", design="DESIGN.md §3 C05",
-        technique="runtime monitoring: histories generated online against an ownership model (owner multisets), destruction observed through userdata delete callbacks + allocation ledger + ASan (use-after-free/double free)",
+        technique="runtime monitoring: histories generated online against an ownership model (owner multisets), destruction observed through userdata delete callbacks + allocation ledger + ASan (use-after-free/double free); thorough adds a valgrind memcheck pass",
         text="24k (quick) / 200k histories of 30-300 API calls over 24 handles incl. shared sub-trees, failing calls, tracked and failing deep copies, pointer_set and patch steps; after every call the destroyed-uid set, put's return value and (on probes) the whole uid structure are compared with the model.",
         note="trusted: the Python ownership model (owner multisets over a DAG of nodes), incl. json_pointer_set and in-place json_patch_apply (remove/move/add/replace) steps"),
     "C12": dict(
         level="exploration", design="DESIGN.md §3 C12",
-        technique="runtime monitoring: ASan driver + RFC 6901 reference evaluator over observed node identities (pointer-annotated dumps) for get/getf/set/setf; full-tree dump diff after every set; ownership probe after failed sets",
+        technique="runtime monitoring: ASan driver + RFC 6901 reference evaluator over observed node identities (pointer-annotated dumps) for get/getf/set/setf; full-tree dump diff after every set; ownership probe after failed sets; sweep of every total pointer length 1..1100 and around 4096 through all four entry points",
         text="16k (quick) / 200k trees with adversarial member names, null members/elements; the canonical pointer to every node plus malformed/dangling pointers; 1-3 sets per tree.",
         note="trusted: reference evaluator (self-tested on the RFC 6901 section 5 table); '~' not followed by 0/1 and NULL roots are not asserted"),
     "C13": dict(
         level="exploration", design="DESIGN.md §3 C13",
-        technique="runtime monitoring: ASan driver + RFC 6902 reference evaluator (deep-copy semantics) comparing rc, failure index, result dump, patch dump before/after and copy_from dump; violating cases are bisected op by op for their key",
+        technique="runtime monitoring: ASan driver + RFC 6902 reference evaluator (deep-copy semantics) comparing rc, failure index, result dump, patch dump before/after and copy_from dump; violating cases are bisected op by op for their key; thorough adds a libFuzzer target for arbitrary (document, patch) pairs",
         text="10^5 conformance patches generated against the evolving reference document + 6*10^4 malformed/damaged patches (quick); 10^6 + 10^6 thorough.",
         note="trusted: reference evaluator (self-tested on RFC 6902 appendix A); document state after a failed patch, whole-document removal and null whole documents are not asserted"),
     "C08": dict(
@@ -100,7 +100,7 @@ CHECKS = {
         note="trusted: shim fault schedule and ledger, gcc ASan/UBSan; complete for the corpus, not for the library; one listed known finding (serializers ignore print-buffer growth failures)"),
     "C14": dict(
         level="exploration", design="DESIGN.md §3 C14",
-        technique="runtime monitoring under a synthesised comma-decimal locale (global, per-thread, both): result bytes differential against the C-locale run; uselocale handle, printf/strtod behaviour and a locale-object ledger observed before/after every call",
+        technique="runtime monitoring under a synthesised comma-decimal locale (global, per-thread, both): result bytes differential against the C-locale run; uselocale handle, printf/strtod behaviour and a locale-object ledger observed before/after every call, for one-shot and incremental (1-7 byte chunks) parsing and for default, global, per-thread and per-node double formats",
         text="~2*10^4 monitored parse/serialize calls (quick) covering every parser outcome class (success, continue, all 14 producible error codes incl. size) under each locale configuration.",
         note="trusted: localedef-synthesised xx_XX locale (setup verifies it is in effect), shim locale ledger; LeakSanitizer off (glibc locale loader keeps LOCPATH buffers)"),
     "C17": dict(
